@@ -830,10 +830,16 @@ impl<'a> Visitor<'a> {
             || path_buf.extension() == Some(OsStr::new("sass"))
             || path_buf.extension() == Some(OsStr::new("css"))
         {
-            let extension = path_buf.extension().unwrap();
-            try_path!(path_buf.with_extension(format!("import.{}", extension.to_str().unwrap())));
+            let extension = path_buf.extension().unwrap().to_str().unwrap().to_owned();
+            try_path!(path_buf.with_extension(format!("import.{}", extension)));
             try_path!(path_buf);
-            // todo: consider load paths
+
+            for load_path in &self.options.load_paths {
+                let path_buf = load_path.join(path);
+                try_path!(path_buf.with_extension(format!("import.{}", extension)));
+                try_path!(path_buf);
+            }
+
             return None;
         }
 
